@@ -10,13 +10,20 @@ pub struct BeanFactory<'b>(DashMap<&'b str, usize>);
 impl BeanFactory<'_> {
     fn get_instance<'i>() -> &'i BeanFactory<'i> {
         static INSTANCE: AtomicUsize = AtomicUsize::new(0);
-        let mut ret = INSTANCE.load(Ordering::Relaxed);
+        let mut ret = INSTANCE.load(Ordering::Acquire);
         if ret == 0 {
             #[cfg(open_coroutine_verif)]
             crate::common::verif::pause("beans_instance_miss");
             let ptr: &'i mut BeanFactory = Box::leak(Box::default());
-            ret = std::ptr::from_mut(ptr) as usize;
-            INSTANCE.store(ret, Ordering::Relaxed);
+            let new = std::ptr::from_mut(ptr) as usize;
+            // publish only if nobody else did meanwhile, otherwise adopt the winner
+            match INSTANCE.compare_exchange(0, new, Ordering::AcqRel, Ordering::Acquire) {
+                Ok(_) => ret = new,
+                Err(existing) => {
+                    drop(unsafe { Box::from_raw(new as *mut BeanFactory) });
+                    ret = existing;
+                }
+            }
         }
         unsafe { &*(ret as *mut BeanFactory) }
     }
@@ -75,12 +82,19 @@ impl BeanFactory<'_> {
             || {
                 #[cfg(open_coroutine_verif)]
                 crate::common::verif::pause("beans_get_or_default_miss");
-                let bean: &B = Box::leak(Box::default());
-                _ = factory.0.insert(
-                    Box::leak(Box::from(bean_name)),
-                    std::ptr::from_ref(bean) as usize,
-                );
-                bean
+                // create outside the map lock, insert only if still absent:
+                // concurrent first users must all end up with the same bean
+                let bean: Box<B> = Box::default();
+                match factory.0.entry(Box::leak(Box::from(bean_name))) {
+                    dashmap::mapref::entry::Entry::Occupied(entry) => unsafe {
+                        &*(*entry.get() as *mut c_void).cast::<B>()
+                    },
+                    dashmap::mapref::entry::Entry::Vacant(entry) => {
+                        let bean: &B = Box::leak(bean);
+                        _ = entry.insert(std::ptr::from_ref(bean) as usize);
+                        bean
+                    }
+                }
             },
             |ptr| unsafe { &*(*ptr as *mut c_void).cast::<B>() },
         )
